@@ -62,6 +62,8 @@ ASSUME_C16 = [
     "possibly executing when it died is treated as an unacknowledged write",
     "the child writes 8 versions per identifier cyclically, so a version older than 8 writes is indistinguishable from the current one",
     "a child that cannot start / be killed, or whose store reports an error, makes the check undecided, not red",
+    "the failing commit that is provoked deterministically is a store on a store that has just been closed (ErrDBClosed); other commit "
+    "failures (disk full, stalled writes) are not provoked",
 ]
 
 
@@ -225,7 +227,7 @@ def run_c12(prop, tier, replay):
     rc = verdict.finish()
 
     classes, guard = c12_classes(lines)
-    if not replay:
+    if not replay and rc == 0:     # vacuity guards never pre-empt a violation
         missing = [g for g in NEEDED_C12 if guard[g] == 0]
         if missing:
             raise vlib.Broken("vacuous run: no call of class %s" % ", ".join(missing))
@@ -293,6 +295,22 @@ def run_c16(prop, tier, replay):
         if ln is None:
             raise vlib.Broken("TLC rejected an unknown line %r" % rj)
         sig, det = fs.classify_c16(rj, ln)
+        if ln["ev"] in ("Get", "Kill"):
+            # was a store to (one of) the offending identifier(s) acknowledged by a store that was not open?
+            want = {fs.key(ln["a"]["id"])} if ln["ev"] == "Get" else {fs.key(b["id"]) for b in rj.get("spec", {}).get("bad", [])}
+            ack_closed = None
+            for x in lines:
+                if x["t"] != rj["t"] or x["n"] >= rj["n"]:
+                    continue
+                if x["ev"] == "StoreClosed" and fs.key(x["a"]["v"]["id"]) in want:
+                    ack_closed = x if x["s"].get("err") == "" else None
+                elif x["ev"] == "StoreAcked" or x["ev"] == "Store":
+                    pass
+            if ack_closed is not None and (ln["ev"] == "Get" or all(
+                    b.get("acked") == ack_closed["a"]["v"]["tag"] for b in rj.get("spec", {}).get("bad", [])
+                    if fs.key(b["id"]) == fs.key(ack_closed["a"]["v"]["id"]))):
+                det["acknowledged_on_closed_store"] = ack_closed["a"]
+                sig = "StoreClosed/acknowledged-but-not-found-" + ("after-reopen" if ln["ev"] == "Get" else "after-kill")
         if ln["ev"] == "Kill":
             # In which cycle were the offending bytes written ("wc" of the lookups after the kill)?  Bytes of the killed
             # cycle that are neither acknowledged nor the one store logged as in flight mean that the parent accounted
@@ -345,17 +363,18 @@ def run_c16(prop, tier, replay):
             verdict.add("Reopen/probe/failed:zero-length-%s" % kind,
                         {"file": name, "first_open_error": res["first_open_error"], "second_open_error": res.get("second_open_error"),
                          "how": "on a cleanly closed store directory create an empty %s and call db.Open" % name})
-    if not replay and not any(isinstance(v, dict) for v in probe.values()):
+    rc = verdict.finish()       # violations first: a store that cannot be reopened ends the history early, and IS the finding
+    if rc == 0 and not replay and not any(isinstance(v, dict) for v in probe.values()):
         raise vlib.Broken("zero-length log file probe did not run: %r" % probe)
-    rc = verdict.finish()
 
     classes = set()
     kills = [ln for ln in lines if ln["ev"] == "Kill"]
     for k in kills:
         a = k["a"]
         classes.add((a.get("mode"), a.get("opened"), bucket(a.get("acks", 0), (0, 9, 99, 999, 9999))))
-    if not replay and (not kills or stats["stores_acked"] == 0 or stats["lookups"] == 0):
-        raise vlib.Broken("vacuous run: no kill / no acknowledged store / no lookup")
+    if rc == 0 and not replay and (not kills or stats["stores_acked"] == 0 or stats["lookups"] == 0
+                                   or stats.get("stores_on_closed_store_refused", 0) + stats.get("stores_on_closed_store_acknowledged", 0) == 0):
+        raise vlib.Broken("vacuous run: no kill / no acknowledged store / no lookup / no store on a closed store")
     cov = {
         "states": mc_states if not replay else max(r["distinct"], 1),
         "transitions": mc_trans if not replay else max(r["generated"], 1),
